@@ -26,7 +26,7 @@ Proof.
 Qed.
 
 Lemma mixed_det (u v w : pt) : mixed RS u v w = det u v w.
-Proof. unfold mixed, det. now rewrite vect_cross, scal_dot. Qed.
+Proof. unfold mixed, det. rewrite vect_cross. reflexivity. Qed.
 
 Lemma vsum2_vadd (u v : pt) : vsum2 RS u v = vadd u v.
 Proof.
@@ -267,9 +267,14 @@ Proof. now destruct a as [[a1 a2] a3]. Qed.
 Lemma pl_nil (a : pt) : pl a = pl a ++ [].
 Proof. now rewrite app_nil_r. Qed.
 
-Global Hint Rewrite vsum2_vadd vsum3_vadd vect_cross scal_dot mixed_det vdiff_vsub
-  rescale_vmul mag2_norm2 mag_norm plane_np_eq vlist_pl : c03rs.
-Ltac tospec := autorewrite with c03rs; rs.
+(* scal/vdiff/rescale/mag2/mag at RS are convertible with the Spec operations
+   (rewriting with them would loop: [dot] itself unifies with [scal RS _ _]) *)
+Ltac tospec :=
+  repeat rewrite vsum2_vadd; repeat rewrite vsum3_vadd; repeat rewrite vect_cross;
+  repeat rewrite plane_np_eq; repeat rewrite vlist_pl;
+  change (@mag R RS) with norm in *; change (@mag2 R RS) with norm2 in *;
+  change (@scal R RS) with dot in *; change (@vdiff R RS) with vsub in *;
+  change (@rescale R RS) with vmul in *; rs.
 
 Lemma Rltb_case (x y : R) : (x < y /\ Rltb x y = true) \/ (y <= x /\ Rltb x y = false).
 Proof.
